@@ -848,7 +848,11 @@ func (g *eng) aclCase(es []aclEntry, valid bool, paths []*vpath) {
 	if !valid {
 		return
 	}
-	rep := map[string]any{"acl": strings.Join(ws, " "), "paths": pathWords(paths)}
+	var ts []string
+	for _, x := range es {
+		ts = append(ts, x.text())
+	}
+	rep := map[string]any{"acl": strings.Join(ws, " "), "acl_text": ts, "paths": pathWords(paths)}
 	if !ok || ans == "not-a-sublist" {
 		e.Violate("C47/acl-filter", "ACL.Eval did not return an order-preserving sub-list: "+ans, rep)
 		return
